@@ -16,6 +16,7 @@ mod generate;
 mod cli;
 mod testrun;
 mod updaterun;
+mod testrun_script;
 
 use common::*;
 use std::sync::Mutex;
@@ -46,6 +47,7 @@ fn main() {
         let ok = match prop.as_str() {
             "C01" | "C02" | "C03" => matcher::replay(&r),
             // C05 / C20 have a second harness module: the integrated end-to-end stream of testrun.rs (op `testdoc`)
+            "C05" | "C20" | "C07" if testrun_script::is_script_op(&r) => testrun_script::replay(&prop, &r),
             "C05" | "C20" if testrun::is_testdoc_op(&r) => testrun::replay(&prop, &r),
             "C05" | "C14" | "C15" | "C20" => exec::replay(&prop, &r),
             "C16" => config::replay(&prop, &r),
@@ -77,6 +79,8 @@ fn main() {
             // `scrut test` on documents whose commands have known output
             exec::run(&ctx, &prop);
             testrun::run(&ctx, &prop);
+            // ... and of the single-script path: Cram documents, Markdown documents under --cram-compat
+            testrun_script::run(&ctx, &prop);
         }
         "C14" | "C15" => exec::run(&ctx, &prop),
         "C16" => config::run(&ctx, &prop),
@@ -86,7 +90,12 @@ fn main() {
         "C17" => yamlcfg::run(&ctx, &prop),
         "C13" => capture::run(&ctx, &prop),
         "C19" => render::run(&ctx, &prop),
-        "C07" => cram::run(&ctx, &prop),
+        "C07" => {
+            cram::run(&ctx, &prop);
+            // how the BINARY reads `doc.t` (file_parser.rs: CramParser with indentation 2 and the Cram maker): the
+            // integrated model stream on Cram documents, with the parse-level oracles (classes `C07:testcram-…`)
+            testrun_script::run(&ctx, &prop);
+        }
         "C08" => grammar::run(&ctx, &prop),
         "C09" | "C10" => {
             // library generators vs the Lean model in-process, then the command-line glue (create.rs, update.rs) end to end
